@@ -268,7 +268,7 @@ type BytecodeCompiler struct {
 	Errors                *diagnostic.SyncDiagnosticList
 	scopes                bytecodeScopes
 	loopJumpSets          []*bytecodeLoopJumpSet
-	offsetValueIds        []int // ids of integers in the value pool that represent bytecode offsets
+	offsetValueIds        []int           // ids of integers in the value pool that represent bytecode offsets
 	ownCallsToOptimise    []*bytecodeCall // late-bound calls emitted into this function (subset of globalData.callsToOptimise)
 	secondToLastOpCode    bytecode.OpCode
 	lastOpCode            bytecode.OpCode
@@ -537,6 +537,16 @@ func identifierToName(node ast.IdentifierNode) string {
 const deferStackVarName = "#_defer_stack"
 
 func (c *BytecodeCompiler) compileWithDefer(body func(), loc *position.Location) {
+	c.compileWithDeferAfterParams(nil, body, loc)
+}
+
+// Like compileWithDefer, but defines the parameters first, so that they keep
+// the local slots the calling convention gives them (1..n) and the hidden local
+// holding the deferred closures comes after them.
+func (c *BytecodeCompiler) compileWithDeferAfterParams(params func() bool, body func(), loc *position.Location) {
+	if params != nil && !params() {
+		return
+	}
 	if !c.hasDefer {
 		body()
 		return
@@ -1003,8 +1013,8 @@ func (c *BytecodeCompiler) compileMacroBody(location *position.Location, paramet
 
 // Entry point for compiling the body of a method.
 func (c *BytecodeCompiler) compileMethodBody(location *position.Location, parameters []ast.ParameterNode, body []ast.StatementNode) {
-	c.compileWithDefer(
-		func() {
+	c.compileWithDeferAfterParams(
+		func() bool {
 			for _, param := range parameters {
 				p := param.(*ast.MethodParameterNode)
 				pSpan := p.Location()
@@ -1012,7 +1022,7 @@ func (c *BytecodeCompiler) compileMethodBody(location *position.Location, parame
 				pName := identifierToName(p.Name)
 				local := c.defineLocal(pName, pSpan)
 				if local == nil {
-					return
+					return false
 				}
 				c.predefinedLocals++
 
@@ -1035,7 +1045,9 @@ func (c *BytecodeCompiler) compileMethodBody(location *position.Location, parame
 					c.emit(pSpan.StartPos.Line, bytecode.POP)
 				}
 			}
-
+			return true
+		},
+		func() {
 			paramCount := len(parameters)
 			if c.isGenerator {
 				c.emit(location.StartPos.Line, bytecode.GENERATOR)
